@@ -436,6 +436,13 @@ class EEA:
                 for n in ast.walk(t):
                     if isinstance(n, ast.Name) and isinstance(n.ctx, ast.Store):
                         names.add(n.id)
+            # chaining idiom `m = await next_handler(..., m, ...)`: handlers return the message they were given
+            # (LISTEN-1, checked by C04), so facts about m survive the rebinding
+            chained = None
+            if len(targets) == 1 and isinstance(targets[0], ast.Name) and isinstance(value, ast.Await) and isinstance(value.value, ast.Call):
+                if any(isinstance(a, ast.Name) and a.id == targets[0].id for a in value.value.args):
+                    chained = targets[0].id
+                    names.discard(chained)
             st2 = self._kill_names(names, st2)
             # env / taint update
             fr2 = st2.fr
@@ -447,7 +454,7 @@ class EEA:
                         tainted.add(t.id)
                     else:
                         tainted.discard(t.id)
-                    if fr2.lookup(t.id) is not None:
+                    if fr2.lookup(t.id) is not None and t.id != chained:
                         vals = I.eval(value, fr) if value is not None else frozenset([UNKNOWN])
                         fr2 = fr2.bind(t.id, vals)
                 elif isinstance(t, (ast.Tuple, ast.List)):
@@ -628,6 +635,16 @@ class EEA:
         if isinstance(test, ast.Compare) and len(test.ops) == 1:
             op = test.ops[0]
             left, right = test.left, test.comparators[0]
+            if isinstance(left, ast.Name) and isinstance(op, (ast.Is, ast.IsNot)) and isinstance(right, ast.Constant) and right.value is None:
+                la = self.I.local_assigns(st.fr.func).get(left.id) or []
+                if len(la) == 1 and isinstance(la[0], ast.Call) and isinstance(la[0].func, ast.Attribute) and la[0].func.attr == "get" and len(la[0].args) == 1:
+                    fact = ("in", norm(la[0].args[0]), norm(la[0].func.value))
+                    if self.grow_only(fact[2]):
+                        if isinstance(op, ast.IsNot):
+                            pos.add(fact)
+                        else:
+                            neg.add(fact)
+                        return frozenset(pos), frozenset(neg)
             if isinstance(op, ast.In):
                 pos.add(("in", norm(left), norm(right)))
             elif isinstance(op, ast.NotIn):
@@ -652,6 +669,10 @@ class EEA:
             if ty in ("dict", "Mapping", "(dict, Mapping)", "(Mapping, dict)", "MutableMapping", "collections.abc.Mapping"):
                 pos.add(("isdict", norm(test.args[0])))
             return frozenset(pos), frozenset(neg)
+        if isinstance(test, ast.Name):
+            la = self.I.local_assigns(st.fr.func).get(test.id) or []
+            if len(la) == 1 and isinstance(la[0], ast.Call) and isinstance(la[0].func, ast.Attribute) and la[0].func.attr == "get" and len(la[0].args) == 1 and self.grow_only(norm(la[0].func.value)):
+                pos.add(("in", norm(la[0].args[0]), norm(la[0].func.value)))
         if isinstance(test, (ast.Name, ast.Attribute)):
             # `if D:` -> non-empty
             pos.add(("nonempty", norm(test)))
@@ -1387,6 +1408,15 @@ class EEA:
         self.obligations += 1
         schema = f.cls
         init = t.cls.find_method("__init__") if t.cls else None
+        # C(**vars(x)) with x an instance of C whose attributes are exactly the stored constructor parameters
+        if init is not None and isinstance(value, ast.Call) and isinstance(value.func, ast.Name) and value.func.id == "vars" and len(value.args) == 1:
+            oc = self._repo_class_of_type(self.prog.type_of(fr.module, value.args[0]))
+            if oc is t.cls:
+                stored = self.I.stored_params(oc)
+                attrs = {tg.attr for st_ in init.node.body if isinstance(st_, (ast.Assign, ast.AnnAssign)) for tg in (st_.targets if isinstance(st_, ast.Assign) else [st_.target]) if isinstance(tg, ast.Attribute)}
+                if attrs == set(stored.values()) and all(p == a for p, a in stored.items()):
+                    self.discharged.append({"site": self.site(fr, e, "kwargs").loc(), "what": norm(e), "by": f"the attributes of a {oc.name} are exactly its constructor parameters"})
+                    return {}
         if schema is not None and init is not None and any(d in ("post_load",) or d.startswith("post_load") for d in f.decorator_names):
             fields = self.schema_field_names(schema)
             params = set(init.params[1:])
@@ -1465,6 +1495,7 @@ class EEA:
     def external(self, t: Target, e: ast.Call, st: St) -> dict:
         fr = st.fr
         name = t.fullname or "?"
+        name = S.ALIASES.get(name.rsplit(".", 1)[0], name.rsplit(".", 1)[0]) + "." + name.rsplit(".", 1)[1] if "." in name else name
         self.obligations += 1
         sm = S.SUMMARIES.get(name)
         if sm is None:
@@ -1482,6 +1513,8 @@ class EEA:
         if sm.raises == "GATHER":
             return {}
         raises = sm.get(t.argtypes)
+        if name == "builtins.vars" and e.args and self._repo_class_of_type(self.prog.type_of(fr.module, e.args[0])) is not None:
+            raises = []  # instances of plain repository classes have a __dict__
         out: dict = {}
         for x in raises:
             if self.external_discharged(name, x, e, st, t):
@@ -1526,7 +1559,17 @@ class EEA:
         if not isinstance(k, ast.Name):
             return False
         snap = None
+        # comprehension form: [D.pop(k) for k in keys]
+        cur = self.prog.parents.get(e)
+        while cur is not None and not isinstance(cur, (ast.stmt,)):
+            if isinstance(cur, (ast.ListComp, ast.SetComp, ast.DictComp, ast.GeneratorExp)):
+                for g_ in cur.generators:
+                    if isinstance(g_.target, ast.Name) and g_.target.id == k.id and isinstance(g_.iter, ast.Name):
+                        snap = g_.iter.id
+            cur = self.prog.parents.get(cur)
         for n in self.I.own_nodes(f):
+            if snap is not None:
+                break
             if isinstance(n, (ast.For, ast.AsyncFor)) and isinstance(n.iter, ast.Call) and isinstance(n.iter.func, ast.Attribute) and n.iter.func.attr in ("items", "keys") and isinstance(n.iter.func.value, ast.Name):
                 tgt = n.target.elts[0] if isinstance(n.target, ast.Tuple) and n.target.elts else n.target
                 if isinstance(tgt, ast.Name) and tgt.id == k.id and any(x is e for x in ast.walk(n)):
@@ -1549,6 +1592,14 @@ class EEA:
             a = v.args[0]
             if norm(a) == d_txt or (isinstance(a, ast.Call) and isinstance(a.func, ast.Attribute) and a.func.attr in ("keys", "items") and norm(a.func.value) == d_txt):
                 ok = True
+        elif isinstance(v, (ast.ListComp, ast.SetComp)) and len(v.generators) == 1:
+            # [key for key, value in D.items() if ...]  /  [key for key in D]
+            g = v.generators[0]
+            it = g.iter
+            tgt0 = g.target.elts[0] if isinstance(g.target, ast.Tuple) and g.target.elts else g.target
+            src_ok = (isinstance(it, ast.Call) and isinstance(it.func, ast.Attribute) and it.func.attr in ("items", "keys") and norm(it.func.value) == d_txt) or norm(it) == d_txt
+            if src_ok and norm(v.elt) == norm(tgt0):
+                ok = True
         if not ok:
             return False
         attr = d_txt.rsplit(".", 1)[-1]
@@ -1565,6 +1616,8 @@ class EEA:
     # ---- marshmallow models
 
     def schema_class_of_call(self, e: ast.Call, fr: Frame) -> ClassInfo | None:
+        if isinstance(e.func, ast.Attribute) and isinstance(e.func.value, ast.Call) and isinstance(e.func.value.func, ast.Name) and e.func.value.func.id == "super":
+            return fr.callee.cls or fr.func.cls
         if isinstance(e.func, ast.Attribute):
             return self._repo_class_of_type(self.prog.type_of(fr.module, e.func.value))
         return None
